@@ -3445,6 +3445,8 @@ void Interpreter::call_copy_constructor(const std::string &var_name,
         }
         // コピーコンストラクタがない場合は、メンバーワイズコピーを実行
         Variable *dest_var = find_variable(var_name);
+        // ソース構造体の最新状態を同期（ネストしたメンバーを含む）
+        sync_struct_members_from_direct_access(source_var_name);
         Variable *source_var = find_variable(source_var_name);
         if (dest_var && source_var) {
             dest_var->struct_members = source_var->struct_members;
@@ -3460,6 +3462,8 @@ void Interpreter::call_copy_constructor(const std::string &var_name,
                     *dest_member = *source_member;
                 }
             }
+            // ネストされた構造体メンバーの個別変数も同期
+            sync_direct_access_from_struct_value(var_name, *dest_var);
         }
         return;
     }
@@ -3503,6 +3507,8 @@ void Interpreter::call_copy_constructor(const std::string &var_name,
                       "No copy constructor found for struct: %s, using ");
         }
         Variable *dest_var = find_variable(var_name);
+        // ソース構造体の最新状態を同期（ネストしたメンバーを含む）
+        sync_struct_members_from_direct_access(source_var_name);
         Variable *source_var = find_variable(source_var_name);
         if (dest_var && source_var) {
             dest_var->struct_members = source_var->struct_members;
@@ -3518,6 +3524,8 @@ void Interpreter::call_copy_constructor(const std::string &var_name,
                     *dest_member = *source_member;
                 }
             }
+            // ネストされた構造体メンバーの個別変数も同期
+            sync_direct_access_from_struct_value(var_name, *dest_var);
         }
         return;
     }
